@@ -59,7 +59,7 @@ BYTE_OPS = ["bitflip", "overwrite", "truncate", "dup_span", "del_span", "splice"
 FIELD_OPS = [
     "dangling_input", "dup_output", "empty_name", "drop_type", "shuffle_nodes", "self_cycle", "bad_dtype", "bad_attr_type", "bad_dims", "ext_location",
     "ext_numbers", "dup_initializer", "dup_function", "dangling_output", "dup_graph_input", "dangling_device", "deep_nesting", "dup_value_info",
-    "tensor_metadata", "missing_opset", "ref_attr", "sparse", "quant", "negative_dims", "string_tensor", "input_is_output", "sub_output_outer", "sub_output_outer", "sub_input_outer", "sub_init_outer",
+    "tensor_metadata", "missing_opset", "ref_attr", "sparse", "quant", "negative_dims", "string_tensor", "input_is_output", "sub_output_outer", "sub_output_outer", "sub_input_outer", "sub_init_outer", "output_is_initializer", "output_is_initializer",
 ]  # fmt: skip
 _IGNORED_PREFIXES = tuple(p for p in {sys.prefix, sys.base_prefix, "/repo", "/verif", "/venv", "/root/.pyenv", "/usr/lib/python3", "/usr/lib/python3.12", "/proc/self"} if p)
 
@@ -289,6 +289,10 @@ def damage_fields(p: onnx.ModelProto, opsl: list) -> None:
             vi.CopyFrom(g.input[0])
         elif kind == "input_is_output" and g.input and n is not None and n.output:
             n.output[0] = g.input[0].name
+        elif kind == "output_is_initializer" and n is not None and n.output and g.initializer:
+            # a node re-declares the name of an initializer (preferably a small external one)
+            ts = [t for t in g.initializer if t.data_location == onnx.TensorProto.EXTERNAL] or list(g.initializer)
+            n.output[a % len(n.output)] = ts[c % len(ts)].name
         elif kind == "dangling_device" and n is not None and hasattr(n, "device_configurations"):
             d = n.device_configurations.add()
             d.configuration_id = "no_such_cfg" if c % 2 else ""
